@@ -10,7 +10,7 @@ ISO = 'IsoOK:%Y-%m-%dT%H:%M:%SZ'
 SUPPORTED = ('root', 'key_mgr')
 
 
-def dm_template(t, name, R=2, M=1, ver_kinds=('int',), thr_kinds=('int',), optional_delegations=False, type_L=8, extra_field=False):
+def dm_template(t, name, R=2, M=1, ver_kinds=('int',), thr_kinds=('int',), optional_delegations=False, type_L=8, extra_field=False, optional_version=False):
     """signed part of delegating metadata with the right container types and free values:
     type (free string), version, R roles with free names, M free keys each, thresholds."""
     def num(nm, kinds):
@@ -40,6 +40,8 @@ def dm_template(t, name, R=2, M=1, ver_kinds=('int',), thr_kinds=('int',), optio
         signed.slots[2][0] = z3.Bool(t.ns + name + '.has_dels')
     if extra_field:
         signed.slots[5][0] = z3.Bool(t.ns + name + '.has_ts')
+    if optional_version:
+        signed.slots[4][0] = z3.Bool(t.ns + name + '.has_ver')
     signed.canon_tok = z3.Int(t.ns + name + '#canon')
     signed.canon_stamp = stubs.struct_stamp(signed)
     return dict(signed=signed, roles=roles, dels=dels, type=typ, ver=ver, exp=exp, name=name)
@@ -52,11 +54,14 @@ def iso_ok(eng, x):
 def wf(eng, d):
     """the signed part satisfies the delegating-metadata schema (transcribed from the property text, C14)"""
     signed = d['signed']
-    conds = [zor([d['type'].eq_conc(s) for s in SUPPORTED]), iso_ok(eng, d['exp']), spec_over(d['ver'], p_natural)]
+    has_ver = zb(signed.slots[4][0])
+    has_ts = zb(signed.slots[5][0]) if len(signed.slots) > 5 else z3.BoolVal(False)
+    conds = [zor([d['type'].eq_conc(s) for s in SUPPORTED]), iso_ok(eng, d['exp']), z3.Implies(has_ver, spec_over(d['ver'], p_natural)),
+             z3.Or(has_ver, has_ts), z3.Implies(d['type'].eq_conc('root'), has_ver)]
     has_dels = zb(signed.slots[2][0])
     conds.append(has_dels)
     if len(signed.slots) > 5:
-        conds.append(z3.Implies(zb(signed.slots[5][0]), iso_ok(eng, signed.slots[5][2])))
+        conds.append(z3.Implies(has_ts, iso_ok(eng, signed.slots[5][2])))
     for r in d['roles']:
         kc = []
         for i, k in enumerate(r['keys']):
